@@ -182,6 +182,18 @@ func init() {
 	e[v("PanicMsg")] = func(fr *frame, args []value) value {
 		return fr.i.needState("PanicMsg").lastPanic
 	}
+	// concurrency mode: goroutines, channels and locks under a scheduler whose decisions are path choices
+	e[v("Schedule")] = func(fr *frame, args []value) value {
+		fr.i.needState("Schedule")
+		if fr.i.sched == nil {
+			fr.i.sched = newScheduler(fr.i, int(asInt64(args[0])))
+		}
+		return nil
+	}
+	e[v("Quiesce")] = func(fr *frame, args []value) value {
+		fr.i.needSched("verif.Quiesce").quiesce(fr)
+		return nil
+	}
 	e[v("MapOrder")] = func(fr *frame, args []value) value {
 		fr.i.needState("MapOrder").mapPerm = args[0].(bool)
 		return nil
@@ -394,6 +406,7 @@ func init() {
 		return nil
 	}
 	registerAtomics(e)
+	registerConcurrency(e)
 
 	// ---- time ------------------------------------------------------------------
 	e["time.Now"] = func(fr *frame, args []value) value {
@@ -470,6 +483,15 @@ func init() {
 		b := args[1].([]value)
 		if len(a) != len(b) {
 			return false
+		}
+		if xs, ys, _, any := fr.i.st.collapseBE(a, b); any {
+			var acc []string
+			for k := range xs {
+				if xs[k] != ys[k] {
+					acc = append(acc, "(= "+xs[k]+" "+ys[k]+")")
+				}
+			}
+			return boolV(mkAnd(acc...))
 		}
 		var acc []string
 		for k := range a {
@@ -779,6 +801,14 @@ func bytesCompare(fr *frame, a, b []value) value {
 	// walk from the front; stop at the first position where both bytes are concrete and differ
 	type pair struct{ x, y string }
 	var pairs []pair
+	if xs, ys, _, any := fr.i.st.collapseBE(a[:n], b[:n]); any {
+		for k := range xs {
+			if xs[k] != ys[k] {
+				pairs = append(pairs, pair{xs[k], ys[k]})
+			}
+		}
+		n = 0 // the groups replace the byte-wise walk
+	}
 	for k := 0; k < n; k++ {
 		xa, xok := a[k].(uint8)
 		yb, yok := b[k].(uint8)
